@@ -16,8 +16,18 @@ type Goroutine struct {
 	Raw       string
 }
 
-// Has reports whether any frame (or the creator) contains sub.
+// Has reports whether any frame contains sub; a pattern that ends in "$" must match the end of the frame's
+// function name (so "pkg.F$" matches pkg.F but not its closures pkg.F.func1).
 func (g Goroutine) Has(sub string) bool {
+	if strings.HasSuffix(sub, "$") {
+		sub = strings.TrimSuffix(sub, "$")
+		for _, f := range g.Frames {
+			if strings.HasSuffix(f, sub) {
+				return true
+			}
+		}
+		return false
+	}
 	for _, f := range g.Frames {
 		if strings.Contains(f, sub) {
 			return true
@@ -107,7 +117,7 @@ var blockedStates = map[string]bool{
 // process is not quiescent while it exists (time.After inside a select leaves no time.* frame).
 var DefaultTimerFrames = []string{
 	"time.Sleep",
-	"pubsub/sync.WaitGroupTimeout(", // the caller that selects on time.After; its helper goroutine (.func1) only sits in wg.Wait
+	"pubsub/sync.WaitGroupTimeout$", // the caller that selects on time.After; its helper goroutine (.func1) only sits in wg.Wait
 	"Retry.Middleware",
 	"middleware.(*Throttle)",
 	"middleware.Throttle",
